@@ -63,7 +63,15 @@ func serverName(i int) string {
 // pools): very large weights whose greatest common divisor is itself huge.
 var poolScale = 1
 
+// extremeLeft: the pool being generated gets one server with a weight near the top of the int
+// range next to small ones (a primary and its stand-bys); counts down as it is handed out.
+var extremeLeft = 0
+
 func genWeight(t *rapid.T, max int) int {
+	if extremeLeft > 0 {
+		extremeLeft--
+		return rapid.SampledFrom([]int{1 << 62, 1<<62 + 1, 1<<62 - 1, 3 << 60}).Draw(t, "wextreme")
+	}
 	if poolScale > 1 {
 		return rapid.IntRange(0, 12).Draw(t, "wscaled") * poolScale
 	}
@@ -123,8 +131,12 @@ func buildPool(t *rapid.T, next http.Handler, maxW int, opts ...roundrobin.LBOpt
 		}
 		poolScale = odd << rapid.IntRange(16, maxShift).Draw(t, "scaleShift")
 	}
+	extremeLeft = 0
+	if maxW > 64 && poolScale == 1 && rapid.IntRange(0, 11).Draw(t, "extremeWeight") == 0 {
+		extremeLeft = 1
+	}
 	nInit := rapid.IntRange(1, 6).Draw(t, "nservers")
-	if maxW > 64 && poolScale == 1 && rapid.IntRange(0, 11).Draw(t, "bigPool") == 0 {
+	if maxW > 64 && poolScale == 1 && extremeLeft == 0 && rapid.IntRange(0, 11).Draw(t, "bigPool") == 0 {
 		// a big, mostly drained pool: hundreds of members, a handful of them with a positive weight
 		nBig := rapid.IntRange(250, 330).Draw(t, "nBig")
 		live := map[int]int{}
